@@ -139,7 +139,12 @@ def prove(prop_modules):
     """(P): regenerate Gen, build the property modules, token-grep, axiom audit."""
     import gen_lean
     res = LeanResult()
-    res.gen = gen_lean.regenerate()
+    # regenerate the Gen/ files the property's modules (transitively) import - the tie for THIS property
+    deps = []
+    for m in prop_modules:
+        module_deps(m, deps)
+    needed = {m.split('.')[-1] + '.lean' for m in deps if m.startswith('PhotVerif.Gen.')}
+    res.gen = gen_lean.regenerate(only_files=needed)
     for k, v in res.gen.items():
         if not v['ok']:
             res.ok = False
